@@ -151,6 +151,23 @@ def gen_case(rng, tier, idx):
     base = gen_spec(rng, PROFILE)
     case = {"exp": exp, "seed": rng.getrandbits(32)}
     if exp == "hashseed":
+        if (idx // 4) % 2 == 1:
+            # inputs whose treatment could depend on the order of a hash-based container: a groundwater log with the same date
+            # entered more than once (a correction appended to the log), repeated schedule dates are excluded (irrigation.py
+            # documents unique dates)
+            from ..gen import gen_gw
+            g = None
+            for _ in range(6):
+                g = gen_gw(rng, dict(PROFILE, gw=1.0), base)
+                if len(g["dates"]) >= 2:
+                    break
+            if g and len(g["dates"]) >= 2:
+                for _ in range(rng.randint(1, 3)):
+                    j = rng.randrange(len(g["dates"]))
+                    pos = rng.randrange(len(g["dates"]) + 1)
+                    g["dates"].insert(pos, g["dates"][j])
+                    g["values"].insert(pos, round(g["values"][j] + rng.choice([-0.4, 0.3, 0.8, 1.3]), 2) if g["values"][j] > 0.6 else round(g["values"][j] + 0.5, 2))
+                base["gw"] = g
         case["specs"] = [base]
         case["hashseeds"] = [rng.randrange(1, 2 ** 31) for _ in range(3)]
     elif exp == "interleave":
